@@ -23,7 +23,8 @@ import (
 var sink *httpsink.Sink
 
 var fieldValues = []string{"1", "-2.5", "1e3", "-0", "0.0", "NaN", "+Inf", "-Inf", "inf", "abc", "with space", `q"uote`, `back\slash`, "new\nline", "tab\there", "true", "false", "null",
-	`{"a":1,"b":[1,2,{"c":null}]}`, `[1,"x",true]`, `"123"`, `"true"`, "é✓", "", " padded ", "0x10", "+5", "TRUE"}
+	`{"a":1,"b":[1,2,{"c":null}]}`, `[1,"x",true]`, `"123"`, `"true"`, "é✓", "", " padded ", "0x10", "+5", "TRUE",
+	`"90210"`, `"null"`, `"false"`, `"{\"a\":1}"`, `" padded in quotes "`, `"1e3"`, `"NaN"`, `"-0"`}
 
 var objects = [][]string{
 	{"POINT", "33.5", "-112.25"}, {"POINT", "10", "20", "30"}, {"BOUNDS", "1", "2", "3", "4"}, {"HASH", "9tbnwg"},
@@ -405,7 +406,12 @@ func gated(ctx *core.Ctx, bin string, caseNo int, withRename bool) {
 		case 14:
 			cmd = []string{"DELCHAN", "cg" + strconv.Itoa(r.Intn(3))}
 		case 15:
-			cmd = []string{"EVAL", `tile38.call('set', KEYS[1], ARGV[1], 'string', ARGV[2]); tile38.call('fset', KEYS[1], ARGV[1], 'sf', ARGV[2]); return 1`, "1", k, id, strconv.Itoa(steps)}
+			if r.Intn(3) == 0 {
+				// a second AOFSHRINK while the first is parked: it is refused, and must change nothing
+				cmd = []string{"AOFSHRINK"}
+			} else {
+				cmd = []string{"EVAL", `tile38.call('set', KEYS[1], ARGV[1], 'string', ARGV[2]); tile38.call('fset', KEYS[1], ARGV[1], 'sf', ARGV[2]); return 1`, "1", k, id, strconv.Itoa(steps)}
+			}
 		case 16, 17:
 			k2 := data.keys[r.Intn(len(data.keys))]
 			if r.Intn(2) == 0 {
@@ -586,6 +592,11 @@ func freeRunning(ctx *core.Ctx, bin string, caseNo int) {
 	nsh := 2 + r.Intn(2)
 	for i := 0; i < nsh; i++ {
 		c.Do("AOFSHRINK")
+		if i%2 == 0 {
+			// a second request while the first rewrite is running
+			time.Sleep(time.Duration(1+r.Intn(8)) * time.Millisecond)
+			c.Do("AOFSHRINK")
+		}
 		if err := waitShrinkDone(c, i, 60*time.Second); err != nil {
 			close(stop)
 			wg.Wait()
